@@ -238,8 +238,8 @@ def replay_path(args):
     return []
 
 
-def check(prop, tier, seed):
-    v = Verdict(prop, tier, seed)
+def check(prop, tier, seed, into=None):
+    v = into or Verdict(prop, tier, seed)
     tot = {"states": 0, "transitions": 0, "paths": 0, "replays": 0}
     for (datalen, maxh, maxops, scope, borrow, usend, ukinds) in TIERS[prop][tier]:
         res = run_tlc("Handles", cfg_text(datalen, maxh, maxops, scope, borrow, usend), outfiles=["edges.ndjson"], timeout=3000)
